@@ -1,6 +1,6 @@
 """C08 — prepared-statement caching is invisible to clients."""
 from mirlib import *
-from common import refused_batch_forget_finding
+from common import refused_batch_forget_finding, bind_rename_findings
 from common import parse_cache_key_gap
 
 H = "pgcat::client::Client::handle::{closure#0}"
@@ -157,26 +157,11 @@ def run(ctx):
             r1.check(not signed, "counts-unsigned:%s" % m, "%s: the item loops of the decoder run over unsigned ranges" % m,
                      "%s: the decoder loops over %s bounded by a 16-bit count of the wire: a message with more than 32767 items (a bulk INSERT with 40000 parameters) is decoded with none of them and re-encoded as a "
                      "stub that announces the items and carries none" % (m, signed))
-    br = ctx.body("pgcat::messages::Bind::rename", r1)
-    if br:
-        ps = br.calls("re:put_slice$")
-        verbatim = False
-        for c in ps:
-            thr = []
-            os_ = origins(br, c.args[1], through=thr)
-            from_buf = any(o.kind == "param" and o.what == 1 for o in os_)
-            for ic in thr:
-                if re.search(r"Index<.*::index$", ic.name) and len(ic.args) > 1:
-                    idx_src = {o.call.name.split("::")[-1] for o in origins(br, ic.args[1], taint=True) if o.kind == "call"}
-                    if from_buf and "position" in idx_src:
-                        verbatim = True
-        r1.check(verbatim, "Bind::rename:remainder", "Bind::rename appends buf[cursor.position()..] of the original message", "Bind::rename no longer copies the remainder of the original Bind verbatim")
-        # new length = old length + new name - old name
-        lens = set()
-        for blk, i, st in br.assigns():
-            if st["rv"]["k"] == "bin" and st["rv"]["op"] in ("Add", "Sub", "AddWithOverflow", "SubWithOverflow"):
-                lens.add(st["rv"]["op"].replace("WithOverflow", ""))
-        r1.check({"Add", "Sub"} <= lens, "Bind::rename:length", "the new length is derived from the old one by adding/subtracting the name lengths", "Bind::rename length arithmetic changed: %s" % sorted(lens))
+    for key_, ok_, okm_, fm_ in bind_rename_findings(F):
+        if ok_ is None:
+            r1.missing(fm_)
+        else:
+            r1.check(ok_, key_, okm_, fm_)
 
     # ---------------- R2
     r2 = ctx.rule("C08-R2", "the pool cache key covers query text and parameter types, not the client's statement name, and is an unambiguous encoding of those fields", floor=3)
@@ -474,6 +459,25 @@ def run(ctx):
         r4.check(nclose >= 2, "close-read-sites", "%d sites read a client Close" % nclose, "expected the two Close arms of Client::handle, found %d" % nclose)
 
     # ---------------- R7 (D12)
+    # ... and closed once: when the Closes have been sent, the list of names waiting to be closed is empty on every way out - has_prepared_statement() reads that list as
+    # `still on the server, take it back`; a name that stays listed after its Close went out is taken back without a Parse and the next Bind of it fails for good
+    ce = F.body("pgcat::server::Server::close_evicted_prepared_statements::{closure#0}")
+    if ce is None:
+        r5.missing("Server::close_evicted_prepared_statements")
+    else:
+        def on_pending(c):
+            return bool(c.args) and any(("." + f) in o.proj for f in pending for o in origins(ce, c.args[0], taint=True) if o.kind in ("place", "param"))
+        empt = [c.block for c in ce.calls("re:^core::mem::(take|swap|replace)$", "re:^alloc::vec::Vec(<.*>)?::(clear|drain|truncate)$") if on_pending(c)]
+        snd = ce.calls("pgcat::server::Server::send")
+        oks = [blk for blk, i, st in ce.assigns() if st["lhs"]["l"] == 0 and st["rv"]["k"] == "agg" and st["rv"].get("variant") == "Ok"]
+        if not snd or not pending:
+            r5.missing("send / pending-close list in close_evicted_prepared_statements")
+        else:
+            before = any(ce.dominates(e, snd[0].block) for e in empt)
+            wit = None if before else ce.uncrossed_path([snd[0].target] if snd[0].target is not None else [], oks, blocks=empt)
+            r5.check(bool(empt) and wit is None, "closed=>no-longer-pending", "once the Closes are sent the pending-close list (%s) is empty on every way to Ok" % sorted(pending),
+                     "close_evicted_prepared_statements can return Ok with the names it has just closed still on the pending-close list (emptied only on some ways - e.g. under a flag like query_failed, which earlier, unrelated "
+                     "errors leave set): the cache takes such a name back as `still on the server`, no Parse is sent, and the client's Bind of a statement it prepared and never closed fails with `does not exist` - every time", "", wit and ce.describe_path(wit))
     r7 = ctx.rule("C08-R7", "a statement made available for the batch being assembled stays on the server until the batch is sent: nothing reachable from the batch-assembly region of the Sync arm sends a pgcat-built Close, "
                   "and a statement recorded for closing is taken back when it is needed again", floor=3)
     h = ctx.body(H, r7)
